@@ -85,7 +85,7 @@ Definition std_tables : tables := {|
     (0, true, true, false,   [(SBefore, SCPre); (SCPre, SDelP)]);
     (0, true, true, true,    [(SBefore, SCPre); (SCPre, SDelP)]);
     (1, false, false, false, [(SChild, SAfter); (SAfter, SSaveP)]);
-    (1, false, false, true,  [(SAfter, SSaveP)]);
+    (1, false, false, true,  [(SAfter, SSaveP); (SSaveP, SChild)]);
     (1, false, true, false,  []);
     (1, false, true, true,   [(SDelP, SChild)]);
     (1, true, false, false,  [(SSaveP, SAfter); (SChild, SAfter); (SAfter, SPPost)]);
